@@ -2757,7 +2757,18 @@ impl Node for XmlDocumentType {
     }
 
     fn parent_node(&self) -> Option<XmlNode> {
-        Some(XmlDocument::from(self.declaration.borrow().parent()).as_node())
+        let document = self.declaration.borrow().parent();
+        let id = self.declaration.borrow().id();
+        let attached = document
+            .borrow()
+            .document_declaration()
+            .map(|v| v.borrow().id() == id)
+            .unwrap_or(false);
+        if attached {
+            Some(XmlDocument::from(document).as_node())
+        } else {
+            None
+        }
     }
 
     fn child_nodes(&self) -> XmlNodeList {
